@@ -333,11 +333,12 @@ class C07(Profile):
             'the C01 multi-session generator; (model, 15%) the C10 program '
             'generator. Non-trivial = at least 5 steps executed.')
     assumptions = C01.assumptions + [
-        'strictness is limited to what the statement lists: complete '
-        'CRLF-terminated lines, literal counts, quoted-string content, '
-        'balanced lists, response argument shapes (ENVELOPE, BODYSTRUCTURE, '
-        'LIST, STATUS, response codes); empty resp-text after a response '
-        'code and 8-bit bytes inside quoted strings are accepted']
+        'the parser is the RFC 3501 response grammar with the advertised '
+        'extensions: complete CRLF-terminated lines, literal counts, '
+        'seven-bit quoted-string content, balanced lists, non-empty '
+        'resp-text, response argument shapes (ENVELOPE, BODYSTRUCTURE with '
+        'its extension data, LIST, STATUS, response codes, msg-att item '
+        'names); its own bound is 120 body levels / 260 list levels']
     components = C01.components
 
     def gen(self, rng, tier):
